@@ -94,3 +94,32 @@ func HarnessC13EmitGate() {
 		verifrt.Assert(err == nil && len(out) > 0, "CALIBRATION: a well-formed module is not emitted")
 	}
 }
+
+// HarnessC14EmitOrder: the QBE generator is run twice on the same MIR module (three type IDs, two vtables, two
+// functions), once with ascending and once with descending iteration order of every Go map it ranges over: the
+// emitted IL must be byte-identical (Go's map iteration order is unspecified and differs from run to run).
+func HarnessC14EmitOrder() {
+	mk := func() *mir.Module {
+		loc := source.Location{}
+		fn := func(name string) *mir.Function {
+			blk := &mir.Block{ID: 1, Name: "entry"}
+			blk.Instrs = append(blk.Instrs, &mir.Const{Result: 1, Type: types.TypeI32, Value: "7", Location: loc})
+			blk.Term = &mir.Return{Value: 1, HasValue: true, Location: loc}
+			return &mir.Function{Name: name, Return: types.TypeI32, Blocks: []*mir.Block{blk}, Location: loc}
+		}
+		return &mir.Module{ImportPath: "m", Functions: []*mir.Function{fn("f"), fn("g")},
+			TypeIDs: map[string]string{"tid_a": "i32", "tid_b": "str", "tid_c": "P"},
+			VTables: []mir.VTable{{Name: "vt_x", Methods: []string{"m1", "m2"}}, {Name: "vt_y", Methods: []string{"m3"}}}}
+	}
+	emit := func(order int) string {
+		verifrt.MapOrder(order)
+		ctx := &context_v2.CompilerContext{Modules: map[string]*context_v2.Module{}, Diagnostics: diagnostics.NewDiagnosticBag(""), DepGraph: map[string][]string{},
+			Config: &context_v2.Config{Extension: ".fer"}}
+		out, err := New(ctx, &context_v2.Module{ImportPath: "m", FilePath: "m.fer"}, mk()).Emit()
+		verifrt.Assert(err == nil, "CALIBRATION: a well-formed module is not emitted")
+		return out
+	}
+	a := emit(0)
+	b := emit(1)
+	verifrt.Assert(a == b, "the emitted QBE IL depends on the iteration order of a Go map (the compiler's output differs from run to run)")
+}
